@@ -54,6 +54,8 @@ pub enum Instr {
     /// a task aborts a named (abortable) command through its AbortHandle
     AbortCmd(u32),
     Spawn(u32, Vec<Instr>),
+    /// the request future is polled once here, then moved into a new task that awaits it and runs the body
+    Handoff(u32, u32, Expr, Vec<Instr>),
     Await(u32),
     Abort(u32),
     Join(Vec<Instr>, Vec<Instr>),
@@ -116,6 +118,11 @@ impl Instr {
             }
             Instr::Spawn(h, body) => {
                 let mut v = vec![atom("spawn"), atom(h)];
+                v.extend(instrs_sexp(body));
+                list(v)
+            }
+            Instr::Handoff(x, n, e, body) => {
+                let mut v = vec![atom("handoff"), atom(x), atom(n), e.sexp()];
                 v.extend(instrs_sexp(body));
                 list(v)
             }
@@ -205,6 +212,7 @@ pub fn parse_instr(s: &Sexp) -> Option<Instr> {
         }
         ("abortcmd", [n]) => Instr::AbortCmd(n.num()?),
         ("spawn", [h, body @ ..]) => Instr::Spawn(h.num()?, parse_instrs(body)?),
+        ("handoff", [x, n, e, body @ ..]) => Instr::Handoff(x.num()?, n.num()?, parse_expr(e)?, parse_instrs(body)?),
         ("await", [h]) => Instr::Await(h.num()?),
         ("abort", [h]) => Instr::Abort(h.num()?),
         ("join", [a, b]) => Instr::Join(parse_instrs(a.as_list()?)?, parse_instrs(b.as_list()?)?),
@@ -259,7 +267,7 @@ pub fn parse_cmd(s: &Sexp) -> Option<Cmd> {
 pub fn legacy_expressible(is: &[Instr]) -> bool {
     is.iter().all(|i| match i {
         Instr::Await(_) | Instr::Abort(_) | Instr::AbortCmd(_) => false,
-        Instr::Stream(_, _, _, _, body, _) | Instr::Spawn(_, body) => legacy_expressible(body),
+        Instr::Stream(_, _, _, _, body, _) | Instr::Spawn(_, body) | Instr::Handoff(_, _, _, body) => legacy_expressible(body),
         Instr::Join(a, b) | Instr::Select(a, b) => legacy_expressible(a) && legacy_expressible(b),
         _ => true,
     })
@@ -367,6 +375,22 @@ pub fn run_block<Ef: HEffect>(
                         },
                     );
                 }
+                Instr::Handoff(x, n, e, body) => {
+                    let mut fut = ctx.request_from_shell(TestOp { n: *n, v: env.eval(e) }).boxed();
+                    // first poll under THIS task's waker: sends the request, stays pending
+                    let first = futures::poll!(&mut fut);
+                    let mut child_env = env.clone();
+                    let body = Arc::new(body.clone());
+                    let x = *x;
+                    let _ = ctx.spawn(move |ctx| async move {
+                        let v = match first {
+                            Poll::Ready(v) => v,
+                            Poll::Pending => fut.await,
+                        };
+                        child_env.vars.insert(x, v);
+                        run_block(ctx, child_env, body).await;
+                    });
+                }
                 Instr::Await(h) => {
                     if let Some(handle) = env.handles.get(h) {
                         (handle.wait)().await;
@@ -449,6 +473,22 @@ pub fn run_block_legacy(
                     let body = Arc::new(body.clone());
                     let c2 = ctx.clone();
                     ctx.spawn(async move {
+                        run_block_legacy(c2, child_env, body).await;
+                    });
+                }
+                Instr::Handoff(x, n, e, body) => {
+                    let mut fut = ctx.request_from_shell(TestOp { n: *n, v: env.eval(e) }).boxed();
+                    let first = futures::poll!(&mut fut);
+                    let mut child_env = env.clone();
+                    let body = Arc::new(body.clone());
+                    let x = *x;
+                    let c2 = ctx.clone();
+                    ctx.spawn(async move {
+                        let v = match first {
+                            Poll::Ready(v) => v,
+                            Poll::Pending => fut.await,
+                        };
+                        child_env.vars.insert(x, v);
                         run_block_legacy(c2, child_env, body).await;
                     });
                 }
